@@ -280,7 +280,7 @@ func (p Point) MarshalBSON() ([]byte, error) {
 // UnmarshalJSON will unmarshal the GeoJSON Point geometry.
 func (p *Point) UnmarshalJSON(data []byte) error {
 	g := &Geometry{}
-	err := unmarshalJSON(data, &g)
+	err := unmarshalJSON(data, g)
 	if err != nil {
 		return err
 	}
@@ -297,7 +297,7 @@ func (p *Point) UnmarshalJSON(data []byte) error {
 // UnmarshalBSON will unmarshal GeoJSON Point geometry.
 func (p *Point) UnmarshalBSON(data []byte) error {
 	g := &Geometry{}
-	err := bson.Unmarshal(data, &g)
+	err := bson.Unmarshal(data, g)
 	if err != nil {
 		return err
 	}
@@ -332,7 +332,7 @@ func (mp MultiPoint) MarshalBSON() ([]byte, error) {
 // UnmarshalJSON will unmarshal the GeoJSON MultiPoint geometry.
 func (mp *MultiPoint) UnmarshalJSON(data []byte) error {
 	g := &Geometry{}
-	err := unmarshalJSON(data, &g)
+	err := unmarshalJSON(data, g)
 	if err != nil {
 		return err
 	}
@@ -349,7 +349,7 @@ func (mp *MultiPoint) UnmarshalJSON(data []byte) error {
 // UnmarshalBSON will unmarshal the GeoJSON MultiPoint geometry.
 func (mp *MultiPoint) UnmarshalBSON(data []byte) error {
 	g := &Geometry{}
-	err := bson.Unmarshal(data, &g)
+	err := bson.Unmarshal(data, g)
 	if err != nil {
 		return err
 	}
@@ -384,7 +384,7 @@ func (ls LineString) MarshalBSON() ([]byte, error) {
 // UnmarshalJSON will unmarshal the GeoJSON MultiPoint geometry.
 func (ls *LineString) UnmarshalJSON(data []byte) error {
 	g := &Geometry{}
-	err := unmarshalJSON(data, &g)
+	err := unmarshalJSON(data, g)
 	if err != nil {
 		return err
 	}
@@ -401,7 +401,7 @@ func (ls *LineString) UnmarshalJSON(data []byte) error {
 // UnmarshalBSON will unmarshal the GeoJSON MultiPoint geometry.
 func (ls *LineString) UnmarshalBSON(data []byte) error {
 	g := &Geometry{}
-	err := bson.Unmarshal(data, &g)
+	err := bson.Unmarshal(data, g)
 	if err != nil {
 		return err
 	}
@@ -436,7 +436,7 @@ func (mls MultiLineString) MarshalBSON() ([]byte, error) {
 // UnmarshalJSON will unmarshal the GeoJSON MultiPoint geometry.
 func (mls *MultiLineString) UnmarshalJSON(data []byte) error {
 	g := &Geometry{}
-	err := unmarshalJSON(data, &g)
+	err := unmarshalJSON(data, g)
 	if err != nil {
 		return err
 	}
@@ -453,7 +453,7 @@ func (mls *MultiLineString) UnmarshalJSON(data []byte) error {
 // UnmarshalBSON will unmarshal the GeoJSON MultiPoint geometry.
 func (mls *MultiLineString) UnmarshalBSON(data []byte) error {
 	g := &Geometry{}
-	err := bson.Unmarshal(data, &g)
+	err := bson.Unmarshal(data, g)
 	if err != nil {
 		return err
 	}
@@ -488,7 +488,7 @@ func (p Polygon) MarshalBSON() ([]byte, error) {
 // UnmarshalJSON will unmarshal the GeoJSON Polygon geometry.
 func (p *Polygon) UnmarshalJSON(data []byte) error {
 	g := &Geometry{}
-	err := unmarshalJSON(data, &g)
+	err := unmarshalJSON(data, g)
 	if err != nil {
 		return err
 	}
@@ -505,7 +505,7 @@ func (p *Polygon) UnmarshalJSON(data []byte) error {
 // UnmarshalBSON will unmarshal the GeoJSON Polygon geometry.
 func (p *Polygon) UnmarshalBSON(data []byte) error {
 	g := &Geometry{}
-	err := bson.Unmarshal(data, &g)
+	err := bson.Unmarshal(data, g)
 	if err != nil {
 		return err
 	}
@@ -540,7 +540,7 @@ func (mp MultiPolygon) MarshalBSON() ([]byte, error) {
 // UnmarshalJSON will unmarshal the GeoJSON MultiPolygon geometry.
 func (mp *MultiPolygon) UnmarshalJSON(data []byte) error {
 	g := &Geometry{}
-	err := unmarshalJSON(data, &g)
+	err := unmarshalJSON(data, g)
 	if err != nil {
 		return err
 	}
@@ -557,7 +557,7 @@ func (mp *MultiPolygon) UnmarshalJSON(data []byte) error {
 // UnmarshalBSON will unmarshal the GeoJSON MultiPolygon geometry.
 func (mp *MultiPolygon) UnmarshalBSON(data []byte) error {
 	g := &Geometry{}
-	err := bson.Unmarshal(data, &g)
+	err := bson.Unmarshal(data, g)
 	if err != nil {
 		return err
 	}
